@@ -12,7 +12,7 @@ MAP_INV = ["InvIff", "InvValue", "InvDup", "Emit"]
 def struct_job(fam):
     return [{"module": "MC_Struct", "spec": "Spec", "invariants": ["InvStruct", "InvInjective", "InvInjectiveX"], "novectors": False,
              "constants": {"Fam": '"%s"' % fam},
-             "quick": {"constants": {"Lens": "{0, 24, 255}", "BigLens": "{}"}, "timeout": 300},
+             "quick": {"constants": {"Lens": "{0, 24, 255}", "BigLens": "{65535}"}, "timeout": 300},
              "thorough": {"constants": {"Lens": "{0, 1, 23, 24, 255, 256}", "BigLens": "{65535, 65536}"}, "timeout": 3000},
              "rule": "(route through the API, body protected header [5 built, 5 decoded incl. non-canonical], signer protected header, "
                      "AAD length class, payload length class / absent) tuples; each state = one tuple executed as a session; all non-trivial; "
